@@ -15,7 +15,7 @@ EXPLANATION = (
     "whose mismatch arm returns CRC_MISMATCH and reaches no consumer; (2) the writer checksums exactly "
     "the buffer/size it appends after the header and write_crc defaults to on; (3) the table generator "
     "uses the reflected IEEE polynomial 0xEDB88320; (4) cursor-skeleton abstract execution of "
-    "crc32_slicing_by_8 for every length 0..80: all reads stay inside [0,length) and every input byte "
+    "crc32_slicing_by_8 for every length 0..80 (0..400 in the thorough tier): all reads stay inside [0,length) and every input byte "
     "is read (no byte can escape the checksum), for both entry points. Decides these clauses, not "
     "equality with zlib for all inputs nor the CRC's error-detection algebra.")
 
@@ -188,7 +188,8 @@ def run(ctx):
     bad_cov = None
     bad_oob = None
     runs = 0
-    for N in range(0, 81):
+    NMAX = ctx.depth(80, 400)
+    for N in range(0, NMAX + 1):
         args = [0] * len(core.params)
         args[didx[0]] = Ptr("data", 0, 1)
         args[nidx[-1]] = N
@@ -217,10 +218,10 @@ def run(ctx):
             return
     ctx.count("crc_skeleton_runs", runs)
     ctx.ob("R4.skeleton", "crc-in-bounds|%s:crc32_slicing_by_8" % CRC, P.where(core.body),
-           "for every length 0..80 the CRC routine reads only data[0..length)", bad_oob is None,
+           "for every length 0..%d the CRC routine reads only data[0..length)" % NMAX, bad_oob is None,
            "length %s reads [%s,%s) at line %s" % bad_oob if bad_oob else "")
     ctx.ob("R4.skeleton", "crc-covers|%s:crc32_slicing_by_8" % CRC, P.where(core.body),
-           "for every length 0..80 every input byte is read by the CRC routine", bad_cov is None,
+           "for every length 0..%d every input byte is read by the CRC routine" % NMAX, bad_cov is None,
            "length %s: bytes %s never enter the checksum" % bad_cov if bad_cov else "")
     # both entry points delegate with their own (data, length)
     for ep in ("carquet_crc32", "carquet_crc32_update"):
